@@ -55,7 +55,10 @@ ASBUILT = {
   equal-hashing spellings). After the seeded campaign: strictly tall complex inputs for every method × absorb, and
   static truncation (no dynamic cutoff) in `truncation_rule` — before, the cutoff was always a positive symbol and the
   `max_bond`-only branch never ran. Fixed: 5 defects (cholesky absorb, drivers ignoring absorb, generic renorm power,
-  `absorb='U,s,VH'` alias, `renorm=True`/`1` cache collision) (§5). Randomised / iterative drivers are outside.""",
+  `absorb='U,s,VH'` alias, `renorm=True`/`1` cache collision) (§5). Randomised / iterative drivers are outside.
+  Third round: on shapes for which the library warns "not well-defined" (polar factor of a wide / tall input) no isometric factor is
+  promised, but a factor that *is* flagged through `left_inds` must still be an isometry — those goals are no longer skipped (the
+  polar factors were flagged there: fixed, §5).""",
 "C06": """* **As built** (`props/c06.py`, 90 quick / 141 thorough, 8 s quick): `gate_lazy_eager`, `gate_split_modes`,
   `gate_mps_modes`, `gate_operator_network`, `gate_peps`, `gate_tag_propagation`, `gate_inds_with_tn`,
   `gate_mixed_dims`, `tensor_gate_method` on MPS L=3 (open, cyclic), a 4-node graph state, 2×2 PEPS, MPO L=3; symbolic
@@ -71,7 +74,10 @@ ASBUILT = {
   certificate search never returned a verdict (measured: 400 CPU s and up to 10 GB each — split / reduce-split of a pair on the
   4-node graph, the chained MPS modes `nonlocal` / `gate_nonlocal` / `gate_with_submpo`, PEPS D = 2 split modes, two non-adjacent
   `gate_simple` pairs) are now run **numeric-only** (symbolic run skipped with a note; a raising numeric run is inconclusive);
-  before that change the thorough command exited 3, which I had not noticed because the run had been interrupted.""",
+  before that change the thorough command exited 3, which I had not noticed because the run had been interrupted.
+  Third round (sub-agent): `mps_entry_mixed_dims` (17 entry points × mixed-dimension chains × every ordered site tuple, gate as matrix /
+  tensor, plain / in place), `mpo_apply_options` (`gate_with_mpo` / `gate_with_submpo` / `gate_nonlocal` × transpose × method × in
+  place with one re-used non-symmetric operator), `mpo_apply_single_site` (one-site operators; `dm` / `zipup` raise — known finding).""",
 "C07": """* **As built** (`props/c07.py`, 195 quick obligations after the seeded campaign, ≈ 120–170 s, dominated by `param_gate[SU4]`): `constant_gates`, `param_gate[name]` (every
   registered parametrised builder is unitary for all parameter values: half-angle `expi` generators),
   `param_gate_relations`, `exact_simulators[sim,cfg,prog]` (Circuit in 5 `gate_contract` modes + CircuitDense × 10
@@ -112,7 +118,12 @@ ASBUILT = {
   `compress_iterative_numeric` — numeric-only, now also with caps above the methods' internal starting sizes and off
   their doubling grids). Bounds in `META`. Fixed: 7 defects (§5). After the second seeded round: the option *pair*
   `normalize=True, sweep_reverse=True` for every direct-type method, and `partial_trace_dense_canonical`
-  (`partial_trace_to_dense_canonical` / `local_expectation_canonical` for ascending **and non-ascending** site tuples).""",
+  (`partial_trace_to_dense_canonical` / `local_expectation_canonical` for ascending **and non-ascending** site tuples).
+  Third round (sub-agent): `spin_ham_builder` (11 families of `SpinHam1D` term lists — several one- and two-site terms on the same
+  site / bond, overrides, `+=` / `-=` in any order — through `build_mpo`, `build_sparse`, `build_local_ham` against an independent
+  dense sum) and `hamiltonian_generators` (`MPO_ham_ising / XY / heis / XXZ / bilinear_biquadratic / mbl` with their less-travelled
+  options). Numeric tables compared by evaluation (the builder allocates a complex table). Fixed: bilinear-biquadratic term,
+  sums ignoring stored exponents (§5).""",
 "C10": """* **As built** (`props/c10.py`, 22 quick, ≈ 30 s): `energy_network` (the network DMRG optimises equals
   ⟨ψ|H|ψ⟩ for complex Hermitian MPOs — this is what exposed the transposed-Hamiltonian defect), `moving_environment`
   (every stored environment × excluded part == whole, both directions, segment edge cases), `sweep_energy` (one sweep
@@ -146,7 +157,12 @@ ASBUILT = {
   sweeps on a chain, a triangle and a star, for every ordering kind (named `sort` / `random` / `random-ungrouped`, explicit tuple /
   list, callable, dynamic) with and without `second_order_reflect`: the symbolic run replaces the documented extension point
   `gate` by a recorder (symbolic terms, uninterpreted exponentials: sequence and generators), the numeric run gates the real
-  network and compares dense states; "the caller's ordering object is not modified".""",
+  network and compares dense states; "the caller's ordering object is not modified".
+  Third round (sub-agent): `local_ham_terms_lattice` (symbolic: `LocalHam2D` / `LocalHam3D` on 2×2 … 3×3 / 2×2×2 … lattices, open and
+  cyclic, default term + overrides keyed in either orientation, one- and two-site terms: stored terms, `get_gate` in both
+  orientations, dense sum) and `driver_state_histories` (numeric-only: histories of evolve / checkpoint / read / assign on one
+  `SimpleUpdateGen` / `SimpleUpdate` / `TEBDGen` object, `update` sequential and parallel). Fixed: `set_state` with
+  `update='parallel'` (§5).""",
 "C13": """* **As built** (`props/c13.py`, sub-agent + review; 154 quick, ≈ 50–60 s): families `exact_routes`,
   `cluster_routes`, `loop_expansion_routes`, `mps_env_and_exact_routes`, `mps_canonical_routes`, `peps_2x2_routes`,
   `peps_boundary_routes`, `peps3d_routes`, `compressed_contraction_routes`, `norms`, …; ratios are compared
@@ -154,7 +170,10 @@ ASBUILT = {
   them to the compressed-contraction branch; the `equalize_norms` × `first_contract` × `second_dense` grid of the 2D
   boundary routes (symbolic cells in the thorough tier, a labelled numeric-only supplement in the quick tier).
   Fixed: `partial_trace_exact(get='tensor')`, two exponent-bookkeeping defects of the 2D plaquette environments under
-  `equalize_norms` (§5). Known finding: `normalized='global'` loop expansion with gauges (§5).""",
+  `equalize_norms` (§5). Known finding: `normalized='global'` loop expansion with gauges (§5).
+  Third round (sub-agent): `peps_normalize_numeric` (`normalize()` on PEPS and on 2D vector networks whose tensor count differs from the
+  site count, option grid) and `mps_canonical_routes_calc_numeric` (canonical routes called **without** a record on un-normalised
+  states that are canonical up to per-tensor scalars; `calc_current_orthog_center` must return a true record) — both numeric-only.""",
 "C15": """* **As built** (`props/c15.py`, sub-agent + review; 232 quick, ≈ 25 s): 32 families; value level with all matrix
   entries symbolic over 12 (39) dimension lists; ownership ranges `ri, rf` symbolic; `dim_map` with unbounded symbolic
   integer coordinates; sparse formats with fixed dyadic entries in symbolic mode (scipy.sparse cannot hold symbols) —
@@ -237,5 +256,9 @@ ASBUILT = {
   superorthogonal on a single-site boundary line, `dm` on a line without outer labels (LinAlgError). A mutation round by
   the building agent (13 one-line regressions through `QV_REPO`) was caught 13/13, 12 in the quick tier; the three
   independently seeded changes of §7 were caught 2/3 at first (the third needed the exponent to accumulate over three
-  steps — depth-4 `equalize_norms` cells added).""",
+  steps — depth-4 `equalize_norms` cells added).
+  Third round (sub-agent): `around_every_target` (2D / 3D `contract_boundary` / `contract_ctmrg(around=…)` for every target site on
+  unequal-sided lattices, five sequences, every mode: the targets stay lone tensors — symbolic structure goals — and environment ∪
+  target == whole — numeric-only) and `rank_deficient_bonds_exact` (numeric-only: every bond inflated to size 3 of rank 2, every mode ×
+  canonize × side, untruncated: exact).""",
 }
